@@ -184,8 +184,9 @@ pub fn run_batched(lines: &[Line], batches: &[usize], gap: u64, case: u64) -> (O
         feasible: Vec<bool>,
         findings: Vec<(String, String)>,
         done: bool,
+        stop_tick: u64,
     }
-    let st = shared(St { tick: 0, next_batch: 0, pos: 0, model: Model::default(), last_sum: 0, after: vec![0], deadline: vec![], feasible: vec![true], findings: vec![], done: false });
+    let st = shared(St { stop_tick: 0, tick: 0, next_batch: 0, pos: 0, model: Model::default(), last_sum: 0, after: vec![0], deadline: vec![], feasible: vec![true], findings: vec![], done: false });
     let s2 = st.clone();
     let tx = rig.to_emu.clone();
     let lines2: Vec<Line> = lines.to_vec();
@@ -254,8 +255,16 @@ pub fn run_batched(lines: &[Line], batches: &[usize], gap: u64, case: u64) -> (O
         if s.model.stopped {
             s.done = true;
         }
-        if s.tick > 200_000 {
-            let _ = tx.send("cmd:stop".to_string());
+        // a run that does not end although a stop was delivered long ago (every line is due within
+        // lines-ahead + 4 iterations) is left by unwinding out of the hook - run() itself offers no other
+        // way - and reported as "did not stop"
+        if s.model.stopped {
+            if s.stop_tick == 0 {
+                s.stop_tick = s.tick;
+            }
+            if s.tick > s.stop_tick + s.pos as u64 + 3000 {
+                std::panic::resume_unwind(Box::new("h8mon: run() did not end after cmd:stop"));
+            }
         }
     });
     let end = run_with_hook(&mut rig.cpu, tick);
@@ -276,6 +285,17 @@ pub fn run_batched(lines: &[Line], batches: &[usize], gap: u64, case: u64) -> (O
         }
     }
     let _ = &mut other;
+    // the last value announced for a port (0 if none) must be what the port drives at the end
+    // (C16: "the last announced value always equals the current output"); only control lines change
+    // the ports here, so the sequential model knows latch and direction exactly
+    let mut final_announced = [0u8; 11];
+    for (p, v) in &port_msgs {
+        if let (Ok(p), Ok(v)) = (usize::from_str_radix(p, 16), u8::from_str_radix(v, 16)) {
+            if (1..=11).contains(&p) {
+                final_announced[p - 1] = v;
+            }
+        }
+    }
     let s = st.borrow();
     let mut mem: Vec<(u32, u8)> = s.model.mem.keys().map(|a| (*a, real_peek(&rig.cpu, *a).unwrap_or(0))).collect();
     mem.sort_unstable();
@@ -295,6 +315,15 @@ pub fn run_batched(lines: &[Line], batches: &[usize], gap: u64, case: u64) -> (O
         if s.model.ddr[p] == 0 && dr_reads[p] != s.model.ext[p] {
             findings.push(("pins-differ-from-sequential-model".into(), format!("port {:x} (all inputs) DR reads {:02x}, the last ioport line that applies set the pins to {:02x}", p + 1, dr_reads[p], s.model.ext[p])));
             break;
+        }
+    }
+    if end == RunEnd::Ok {
+        for p in 0..11 {
+            let driven = s.model.latch[p] & s.model.ddr[p];
+            if final_announced[p] != driven {
+                findings.push(("announced-output-differs-from-driven-output".into(), format!("port {:x}: last announced value {:02x}, the port drives {:02x} (latch {:02x}, direction {:02x}) after the last line", p + 1, final_announced[p], driven, s.model.latch[p], s.model.ddr[p])));
+                break;
+            }
         }
     }
     if end != RunEnd::Ok {
@@ -352,7 +381,7 @@ pub fn c18_case(rep: &mut Report, seed: u64, verbose: bool) -> bool {
         // batches back to back, or far enough apart that every line of a batch is due (handled) before
         // the next batch arrives - then the run state between two batches is fully determined
         let longest = p.iter().copied().max().unwrap_or(1) as u64;
-        let gap = if rng.chance(1, 2) { 1 + rng.below(3) } else { longest + 6 + rng.below(4) };
+        let gap = if rng.chance(2, 3) { 1 + rng.below(3) } else { longest + 6 + rng.below(4) };
         let (out, findings) = run_batched(&lines, p, gap, seed);
         rep.evaluations += 1;
         rep.count("lines_delivered", n as u64);
